@@ -7,7 +7,10 @@ MAP = [("benchfmt/internal/bytesconv", "C03 C02 C01"), ("benchfmt/", "C01 C02 C0
        ("benchproc/internal/parse", "C07 C06 C08 C14"), ("benchproc/", "C05 C06 C07 C08 C09 C14 C15 C16"), ("benchmath/", "C13 C14"),
        ("internal/stats/", "C11 C12 C17"), ("benchstat/", "C17"), ("benchseries/", "C18"), ("cmd/benchstat/", "C14 C15 C16"),
        ("storage/", "C19 C20"), ("analysis/", "C19")]
+TARGET = os.environ.get("SEED_TARGET", "/repo")   # a scratch worktree at /repo's HEAD when /repo itself must stay untouched
+ENVV = dict(os.environ, VERIF_REPO=TARGET)
 def sh(cmd, **kw):
+    kw.setdefault("env", ENVV)
     p = subprocess.run(cmd, stdout=subprocess.PIPE, stderr=subprocess.STDOUT, text=True, **kw)
     return p.returncode, p.stdout
 for d in sorted(glob.glob(os.path.join(sys.argv[1], "b*")), key=lambda x: int(re.sub(r"\D", "", os.path.basename(x)) or 0)):
@@ -22,7 +25,7 @@ for d in sorted(glob.glob(os.path.join(sys.argv[1], "b*")), key=lambda x: int(re
                 for p in ps.split():
                     if p not in props: props.append(p)
                 break
-    rc, out = sh(["git", "-C", "/repo", "apply", patch])
+    rc, out = sh(["git", "-C", TARGET, "apply", patch])
     res = {"patch": os.path.basename(d), "files": files, "checks": {}}
     if rc != 0:
         res["error"] = "does not apply to /repo HEAD: " + out[-200:]
@@ -33,7 +36,7 @@ for d in sorted(glob.glob(os.path.join(sys.argv[1], "b*")), key=lambda x: int(re
                 last = [l for l in out.splitlines() if l.startswith(("VIOLATION", "OK"))]
                 res["checks"][p] = {"exit": rc, "line": last[-1] if last else out[-200:]}
         finally:
-            sh(["git", "-C", "/repo", "checkout", "--", "."])
+            sh(["git", "-C", TARGET, "checkout", "--", "."])
     res["false_alarms"] = [p for p, v in res["checks"].items() if v["exit"] != 0]
     dst = os.path.join(V, "seeded", "benign-" + os.path.basename(d))
     os.makedirs(dst, exist_ok=True)
